@@ -33,19 +33,20 @@ Theorem C05_matmul_add_to_gemm_direction_refuted : exists p,
 Proof. exact mg_impl_refuted_direction. Qed.
 Print Assumptions C05_matmul_add_to_gemm_direction_refuted.
 
-(* check_if_not_need_reshape: whenever it accepts, shape_c is the MatMul output shape of the un-reshaped operands
+(* PARTIAL (shape only; equality of VALUES is refuted below, C05_matmul_reshape_values_refuted).
+   check_if_not_need_reshape: whenever it accepts, shape_c is the MatMul output shape of the un-reshaped operands
    (all ranks, all positive dims) -- given that their inner dimensions agree, which the check as read does not ensure *)
-Theorem C05_matmul_reshape_check_shape : forall sa sb sc,
+Theorem C05_matmul_reshape_check_shape_partial : forall sa sb sc,
   positive_dims sa -> positive_dims sb -> inner_agree sa sb ->
   check_bcast false sa sb sc = Some true -> matmul_shape sa sb = Some sc.
 Proof. exact check_bcast_shape_sound. Qed.
-Print Assumptions C05_matmul_reshape_check_shape.
+Print Assumptions C05_matmul_reshape_check_shape_partial.
 
-Theorem C05_matmul_reshape_check_strict_shape : forall sa sb sc,
+Theorem C05_matmul_reshape_check_strict_shape_partial : forall sa sb sc,
   positive_dims sa -> positive_dims sb ->
   check_bcast true sa sb sc = Some true -> matmul_shape sa sb = Some sc.
 Proof. exact check_bcast_strict_shape_sound. Qed.
-Print Assumptions C05_matmul_reshape_check_strict_shape.
+Print Assumptions C05_matmul_reshape_check_strict_shape_partial.
 
 Theorem C05_matmul_reshape_check_strict_total : forall sa sb sc, check_bcast true sa sb sc <> None.
 Proof. exact check_bcast_strict_total. Qed.
